@@ -76,9 +76,9 @@ def run(rep):
         rep.sample({k: r_[k] for k in ('act', 'E', 'start', 'stop', 'sites', 'perc', 'peaks', 'meta') if k in r_})
     judge(rep, recs)
     rep.nontrivial += nt
-    # beyond the listed property: optimal_n_paths (validity, first = optimal, pairwise difference >= min_diff, order of cost).
-    # These records are judged by the same trace spec but are INFORMATIONAL: C10 does not speak about n-paths, so a deviation
-    # is printed as a NOTE and recorded in the evidence, never reported as a violation of C10.  The leg runs AFTER the
+    # optimal_n_paths: every returned path valid and the first one optimal under the selected method are C10 clauses (verdicts);
+    # how many paths come back, their pairwise difference >= min_diff and their order of cost are beyond the listed property:
+    # judged by the same trace spec but INFORMATIONAL (printed as a NOTE, recorded in the evidence).  The leg runs AFTER the
     # property has been decided and under a wall-clock budget per call (optimal_n_paths enumerates simple paths and can take
     # unbounded time on a tree where the graph has more edges than it should): it can never delay or mask the verdict.
     import signal
@@ -94,10 +94,17 @@ def run(rep):
         for k in range(30 if quick else 400):
             b += 1
             # small grids, faces only: optimal_n_paths enumerates simple paths until enough different ones are found
-            E = grid_drive.random_grid(rng, maxdims=(2, 2, 3), p_block=float(rng.choice([0.0, 0.15])))
+            big = k % 3 == 2
+            if big:
+                # a ring (1 x 1 x L or 1 x 2 x L): the way round with the fewest steps and the cheapest way round differ
+                dims = [1, int(rng.integers(1, 3)), int(rng.integers(6, 9))]
+                rng.shuffle(dims)
+                E = rng.integers(0, 7, size=dims)
+            else:
+                E = grid_drive.random_grid(rng, maxdims=(2, 2, 3), p_block=float(rng.choice([0.0, 0.15])))
             signal.alarm(20)
             try:
-                r_ = grid_drive.npaths_record(rng, b, E, False)
+                r_ = grid_drive.npaths_record(rng, b, E, bool(big and k % 2), quick_second=big)
             except _Budget:
                 skipped['budget-exceeded'] = skipped.get('budget-exceeded', 0) + 1
                 if skipped['budget-exceeded'] >= 3:
@@ -121,7 +128,12 @@ def run(rep):
         rep.add_trace_stats()
         notes = {}
         for rec, meta, (v, _) in zip(extra_recs, metas, verdicts):
-            if v != 'ok':
+            rep.evaluations += 1
+            if v in ('npaths-none-returned', 'npaths-not-a-valid-path', 'npaths-first-not-optimal', 'no-path-reported-but-one-exists'):
+                # what C10 says about every returned path (valid; none cheaper under the selected criterion) holds for the paths of
+                # optimal_n_paths too, and its first path is the optimal one: these clauses are verdicts
+                rep.violation({'kind': 'leg-B', 'clause': v, 'meta': meta, 'record': {'E': rec['E'], 'start': rec['start'], 'stop': rec['stop'], 'paths': rec['paths'][:3]}})
+            elif v != 'ok':
                 notes.setdefault(v, {'count': 0, 'example': {'meta': meta, 'start': rec['start'], 'stop': rec['stop'], 'E': rec['E'], 'paths': rec['paths'][:4]}})
                 notes[v]['count'] += 1
         rep.extra['beyond_property_optimal_n_paths'] = {'records': len(extra_recs), 'deviations': notes, 'skipped': skipped}
